@@ -40,7 +40,10 @@ Fixpoint wf_tree (t : tree) : Prop :=
   end.
 
 
-Definition wf_op (o : nat * op) : Prop := match snd o with Load t => wf_tree t | _ => True end.
+Definition wf_item (it : mitem) : Prop := match it with MAdd _ _ c => wf_tree c | MUpd _ _ => True end.
+
+Definition wf_op (o : nat * op) : Prop :=
+  match snd o with Load t => wf_tree t | Modify ups _ => Forall wf_item ups | _ => True end.
 
 Definition wf_world (w : world) : Prop := Forall (fun s => wf_tree (s_root s)) (w_sys w).
 
